@@ -230,15 +230,15 @@ pub fn render_all(e: &serde_saphyr::Error) -> Vec<String> {
 /// Reader-based entry points hand the text to saphyr-parser through its buffered (iterator) input. That
 /// input returns NUL forever at end of input and the scanner's "read a word" loop does not stop on NUL, so a
 /// `%directive` line whose last word runs into the end of input never terminates (DESIGN.md, known finding
-/// C01/hang). This predicate over-approximates that class: the last line starts with '%' and does not end
-/// in a blank.
+/// C01/hang). This predicate over-approximates that class: the last line (not terminated by a line break)
+/// starts with '%'.
 pub fn reader_hang_suspect(input: &[u8]) -> bool {
     let start = input.iter().rposition(|&b| b == b'\n' || b == b'\r').map(|p| p + 1).unwrap_or(0);
     let mut line = &input[start..];
     if start == 0 && line.starts_with(b"\xef\xbb\xbf") {
         line = &line[3..];
     }
-    line.first() == Some(&b'%') && !matches!(line.last(), Some(b' ') | Some(b'\t'))
+    line.first() == Some(&b'%')
 }
 
 pub fn is_reader_entry(entry: u8) -> bool {
